@@ -76,7 +76,8 @@ def check_prop(prop, tier, seed, a):
     jobs = registry.jobs_for(prop, tier, seed)
     if a.job:
         # a job named explicitly may also be one kept in no tier ("manual")
-        pool = jobs + ([j for j in registry.all_jobs(seed) if prop in j.props and j.tier == "manual"] if tier == "thorough" else [])
+        # (only on request, VERIF_MANUAL=1: a regex over a family must not drag the unregistered siblings into a registered run)
+        pool = jobs + ([j for j in registry.all_jobs(seed) if prop in j.props and j.tier == "manual"] if (tier == "thorough" and os.environ.get("VERIF_MANUAL") == "1") else [])
         jobs = [j for j in pool if re.search(a.job, j.name)]
     if a.timeout:
         for j in jobs:
